@@ -71,11 +71,18 @@ fn run_observer(k: usize) -> Vec<String> {
     let mut errs = vec![];
     alloc::reset();
     ev::LOG.clear();
+    // cases 1..24: the payload's impl panics; 25..48: it looks at every count while the handle-level call is in progress
+    let peek = k > 24;
+    let k = if peek { k - 24 } else { k };
     let kind = (k - 1) / 6;
     let meth = (k - 1) % 6;
     let names = ["Arc", "ThinArc", "OffsetArc", "ArcUnion"];
     let meths = ["eq", "partial_cmp", "cmp", "hash", "Debug", "lt"];
-    let tag = format!("{}::{} with a panicking payload impl", names[kind], meths[meth]);
+    let tag = if peek { format!("{}::{} with a payload impl that reads the counts", names[kind], meths[meth]) }
+              else { format!("{}::{} with a panicking payload impl", names[kind], meths[meth]) };
+    // (allocated before tracking starts: it outlives the reset at the end)
+    let during: std::rc::Rc<std::cell::RefCell<Vec<[usize; 8]>>> = Default::default();
+    during.borrow_mut().reserve(64);
     alloc::track(true);
     let (a1, a2) = (Arc::new(A::mk(1)), Arc::new(A::mk(2)));
     let (t1, t2): (ThinArc<A, u8>, ThinArc<A, u8>) = (ThinArc::from_header_and_slice(A::mk(1), &[1]), ThinArc::from_header_and_slice(A::mk(2), &[1]));
@@ -83,7 +90,24 @@ fn run_observer(k: usize) -> Vec<String> {
     let (u1, u2): (ArcUnion<A, u8>, ArcUnion<A, u8>) = (ArcUnion::from_first(Arc::new(A::mk(1))), ArcUnion::from_first(Arc::new(A::mk(2))));
     let mut sink = String::with_capacity(256);
     let mut hasher = std::collections::hash_map::DefaultHasher::new();
-    OBS_PANIC.store(true, Ordering::SeqCst);
+    if peek {
+        let ptrs = (&a1 as *const Arc<A>, &a2 as *const Arc<A>, &t1 as *const ThinArc<A, u8>, &t2 as *const ThinArc<A, u8>,
+                    &o1 as *const OffsetArc<A>, &o2 as *const OffsetArc<A>, &u1 as *const ArcUnion<A, u8>, &u2 as *const ArcUnion<A, u8>);
+        let sink = during.clone();
+        alloc::track(false);
+        let f: Box<dyn FnMut()> = Box::new(move || unsafe {
+            let c = [Arc::count(&*ptrs.0), Arc::count(&*ptrs.1), ThinArc::strong_count(&*ptrs.2), ThinArc::strong_count(&*ptrs.3),
+                     OffsetArc::strong_count(&*ptrs.4), OffsetArc::strong_count(&*ptrs.5), ArcUnion::strong_count(&*ptrs.6), ArcUnion::strong_count(&*ptrs.7)];
+            let mut v = sink.borrow_mut();
+            if v.len() < v.capacity() {
+                v.push(c);
+            }
+        });
+        crate::payload::OBS_HOOK.with(|h| *h.borrow_mut() = Some(f));
+        alloc::track(true);
+    } else {
+        OBS_PANIC.store(true, Ordering::SeqCst);
+    }
     let applicable = std::cell::Cell::new(true);
     let r = catch_unwind(AssertUnwindSafe(|| match (kind, meth) {
         (0, 0) => { let _ = a1 == a2; }
@@ -105,8 +129,21 @@ fn run_observer(k: usize) -> Vec<String> {
         (3, 4) => { let _ = write!(sink, "{:?}", u1); }
         _ => applicable.set(false),
     }));
-    let fired = !OBS_PANIC.swap(false, Ordering::SeqCst);
+    let fired = !peek && !OBS_PANIC.swap(false, Ordering::SeqCst);
     alloc::track(false);
+    if peek {
+        let f = crate::payload::OBS_HOOK.with(|h| h.borrow_mut().take());
+        drop(f);
+        if r.is_err() {
+            errs.push(format!("[panicked] {}: the call panicked", tag));
+        }
+        for c in during.borrow().iter() {
+            if c.iter().any(|x| *x != 1) {
+                errs.push(format!("[count] {}: while the call was in progress the counts read {:?}; comparing, hashing or formatting never changes a count, every handle is a sole owner", tag, c));
+                break;
+            }
+        }
+    }
     if applicable.get() && fired {
         match &r {
             Err(p) if p.is::<ObsPanic>() => {}
@@ -194,7 +231,8 @@ fn run_release(k: usize) -> Vec<String> {
     use triomphe::{ArcUnion, OffsetArc};
     use unsize::{CoerceUnsize, Coercion};
     let names = ["Arc", "last of two Arc clones", "Arc<[T]>", "Arc<dyn Debug> (unsized)", "ThinArc (header)", "OffsetArc", "ArcUnion (second)",
-                 "UniqueArc", "Arc<HeaderSlice> (element)"];
+                 "UniqueArc", "Arc<HeaderSlice> (element)", "UniqueArc<HeaderSlice> assumed initialised (element)",
+                 "Arc<T> built by new_uninit / write / assume_init", "UniqueArc<HeaderSlice<_, [MaybeUninit]>> never initialised (header)"];
     let tag = format!("last release of {} with a panicking payload destructor", names[(k - 1) % names.len()]);
     alloc::reset();
     ev::LOG.clear();
@@ -216,6 +254,17 @@ fn run_release(k: usize) -> Vec<String> {
         6 => drop(Arc::into_raw_offset(Arc::new(Bomb(A::mk(1))))),
         7 => drop(ArcUnion::<u64, Bomb>::from_second(Arc::new(Bomb(A::mk(1))))),
         8 => drop(UniqueArc::new(Bomb(A::mk(1)))),
+        10 => {
+            let mut u = UniqueArc::<triomphe::HeaderSlice<u32, [std::mem::MaybeUninit<Bomb>]>>::from_header_and_uninit_slice(7u32, 1);
+            u.slice[0].write(Bomb(A::mk(1)));
+            drop(unsafe { u.assume_init_slice_with_header() })
+        }
+        11 => {
+            let mut u = UniqueArc::<Bomb>::new_uninit();
+            u.write(Bomb(A::mk(1)));
+            drop(unsafe { UniqueArc::assume_init(u) }.shareable())
+        }
+        12 => drop(UniqueArc::<triomphe::HeaderSlice<Bomb, [std::mem::MaybeUninit<u64>]>>::from_header_and_uninit_slice(Bomb(A::mk(1)), 2)),
         _ => drop(Arc::from_header_and_iter(7u32, vec![Bomb(A::mk(1))].into_iter())),
     }));
     alloc::track(false);
